@@ -230,6 +230,20 @@ func (w *World) run() {
 	w.settle()
 	w.snapshot("established")
 	w.setPhase("run")
+	if w.c.Reg != nil {
+		w.eventsDone = make([]bool, len(w.c.Events))
+		w.runRegistry()
+		w.snapshot("drain2")
+		w.setPhase("end")
+		w.endTunnels()
+		w.drain()
+		w.snapshot("ended")
+		w.setPhase("final")
+		w.advance(time.Hour)
+		w.drain()
+		w.finish()
+		return
+	}
 	switch {
 	case w.c.Raw != nil && w.c.Raw.Role == "client":
 		w.buildRawClientActors()
@@ -736,7 +750,7 @@ func (w *World) openTunnel(spec TunnelSpec, fatal bool) bool {
 		}
 		t.server = w.servers[spec.Server]
 		go w.serveLoop(t)
-		synctest.Wait()
+		w.settle()
 		w.mu.Lock()
 		opened := t.ch != nil
 		w.mu.Unlock()
